@@ -331,6 +331,17 @@ def conditions(tier):
         for (n, m) in ([(9, 1)] if q else [(10, 1), (17, 1), (17, 8)]):
             for part in (['none'] if q else PARTS):
                 add(f'C07.split-aligned[{c},n={n},m={m},start={part}]', h_split(c, n, m, 'explicit' if q else 'on', part), f'as above x every way of requesting byte alignment', D_MISC, n=n, m=m)
+    # the match selection of replace (shared with C03's harness): successive non-overlapping matches from the left, every alignment request
+    from harness.c03 import h_replace, D_REP
+    for c in (['BitArray'] if q else ['BitArray', 'BitStream']):
+        for ba in (None, False, True):
+            for opt in (False, True):
+                eff = opt if ba is None else ba
+                if q and (ba, opt) == (None, False):
+                    continue        # the plain C03.replace conditions
+                for (n, m, k) in (([(16, 8, 3)] if eff else [(4, 1, 2)]) if q else [(9, 1, 2), (10, 2, 1), (16, 8, 3), (17, 2, 0)]):
+                    add(f'C07.replace-select[{c},n={n},old={m},new={k},bytealigned={ba},option={opt}]', h_replace(c, n, m, k, n + 1, (ba, opt, 'whole') if q else (ba, opt)),
+                        f'all contents ({n}-bit data, {m}-bit old, {k}-bit new) x ' + ('end' if q else 'start,end') + f' in [-{n + 1},{n + 1}] or None x count in [-1,3] or None; bytealigned={ba}, options.bytealigned={opt}', D_REP, n=n, m=m, k=k)
     if q:
         add('C07.find[BitStream,n=6,m=2]', h_find('BitStream', 6, 2, 'off', 'find'), 'all contents (6-bit data, 2-bit pattern) x windows', D_FIND, n=6, m=2)
         add('C07.find-align-ways[BitArray,n=8,m=1]', h_find('BitArray', 8, 1, 'on', 'find', 'none'), 'all contents (8-bit data, 1-bit pattern) x end x every way of requesting byte alignment', D_FIND, n=8, m=1)
